@@ -88,6 +88,10 @@ IPosDef(A) == A = IT(A) /\ \A q \in 1..Len(A) : IDet(F([i \in 1..q |-> [j \in 1.
 QV(v, den)  == F([i \in 1..Len(v) |-> Q(v[i], den)])            \* integer vector / den
 QM(A, den)  == F([i \in 1..Len(A) |-> QV(A[i], den)])
 ICol(A, j)  == F([i \in 1..Len(A) |-> A[i][j]])
+\* addition over the least common denominator (Rat.RAdd multiplies the denominators: 32-bit overflow for det > 46340)
+RAddS(a, b) == LET g == Gcd(a[2], b[2]) IN Norm(a[1] * (b[2] \div g) + b[1] * (a[2] \div g), (a[2] \div g) * b[2])
+VAddS(u, v) == F([i \in 1..Len(u) |-> RAddS(u[i], v[i])])
+VSubS(u, v) == F([i \in 1..Len(u) |-> RAddS(u[i], RNeg(v[i]))])
 \* rational matrices are inverted fraction-free: scale by the common denominator K, integer adjugate / determinant
 RECURSIVE LcmSeq(_)
 LcmSeq(s)   == IF s = <<>> THEN 1 ELSE LET t == LcmSeq(Tail(s)) IN (Head(s) \div Gcd(Head(s), t)) * t
@@ -254,11 +258,12 @@ RtoDerived(r) ==
 \* min || M z - (b~ + e) ||  solved from the starting point xs:  z = xs + (M^T M)^-1 M^T (b~ + e - M xs)
 RtoStep(dd, xs, q) ==
     LET e    == IF q = 0 THEN IZeroV(dd.N) ELSE IUnit(dd.N, q)
-        be   == VR(IVAdd(dd.bt, e))
-        res  == VSub(be, MV(MR(dd.M), xs))                         \* b~ + e - M xs
-        g    == MV(MR(dd.Madj), res)                               \* flag 2 applied to the residual
-        corr == VScale(Q(1, dd.detN), MV(MR(dd.adjN), g))          \* (M^T M)^-1 g
-    IN VAdd(xs, corr)
+        \* (M^T M)^-1 M^T (b~ + e): flag 2 applied to the perturbed data, normal matrix N = Madj M inverted fraction-free
+        r0   == QV(IMV(IMM(dd.adjN, dd.Madj), IVAdd(dd.bt, e)), dd.detN)
+        \* (M^T M)^-1 (M^T M) xs: the part of the correction that removes the starting point
+        NN   == IMM(dd.adjN, dd.MtM)
+        proj == IF NN = IMSc(dd.detN, IId(dd.n)) THEN xs ELSE MV(QM(NN, dd.detN), xs)
+    IN VAddS(xs, VSubS(r0, proj))
 
 RtoInitStates(n) == { VR(IZeroV(n)), VR([i \in 1..n |-> (3 * i) - 5]), [i \in 1..n |-> Q(i, 2)] }
 
@@ -273,7 +278,7 @@ RtoNormalEquations == Part = "rto" =>
     /\ IMV(d.Madj, d.bt) = d.rhs                       \* M^T b~ = Lambda mu_post
     /\ IPosDef(d.Lam) /\ IMM(d.adj, d.Lam) = IMSc(d.det, IId(c.n))
 RtoStepIsPosteriorDraw == Part = "rto" /\ k >= 0 =>
-    x = (IF k = 0 THEN d.mu ELSE VAdd(d.mu, QV(ICol(IMM(d.adj, IT(d.M)), k), d.det)))   \* mu_post + Lambda^-1 M^T e_k, whatever the previous state
+    x = (IF k = 0 THEN d.mu ELSE VAddS(d.mu, QV(ICol(IMM(d.adj, IT(d.M)), k), d.det)))   \* mu_post + Lambda^-1 M^T e_k, whatever the previous state
 RtoCovariance == Part = "rto" =>
     LET TN == IMM(d.adj, IT(d.M))                      \* det * Lambda^-1 M^T
     IN IMM(TN, IT(TN)) = IMSc(d.det, d.adj)            \* (Lambda^-1 M^T)(Lambda^-1 M^T)^T = Lambda^-1
